@@ -427,6 +427,9 @@ class Executor:
             # set union as an expression (`s | t`): z3's array-based set union (extensional; no fresh constant)
             sty = next(x.ty for x in (a, b) if isinstance(x, V) and isinstance(x.ty, TSet))
             return V(sty, z3.SetUnion(coerce(a, sty).z, coerce(b, sty).z))
+        if isinstance(op, ast.BitAnd) and any(isinstance(x, V) and isinstance(x.ty, TSet) for x in (a, b)):
+            sty = next(x.ty for x in (a, b) if isinstance(x, V) and isinstance(x.ty, TSet))
+            return V(sty, z3.SetIntersect(coerce(a, sty).z, coerce(b, sty).z))      # set intersection as an expression (`s & t`)
         x = coerce(a, INT).z
         y = coerce(b, INT).z
         if isinstance(op, ast.Add):
@@ -611,6 +614,10 @@ class Executor:
             if n < 0:
                 n += len(base.ty.elems)
             return tuple_get(base, n)
+        if isinstance(base, V) and isinstance(base.ty, T.TDefaultDict):
+            t = base.ty                     # defaultdict: an absent key reads as the empty value (and is no error)
+            k = coerce(idx, t.k)
+            return V(t.v, z3.If(z3.Select(t.sort().dom(base.z), k.z), z3.Select(t.sort().val(base.z), k.z), t.empty))
         if isinstance(base, V) and isinstance(base.ty, TDict):
             t = base.ty
             k = coerce(idx, t.k)
@@ -737,6 +744,19 @@ class Executor:
         raise Unsupported("bare slice")
 
     def e_Dict(self, st, e):
+        if e.keys and all(k is None for k in e.keys):
+            vals = [self.eval(st, v) for v in e.values]
+            if all(isinstance(v, V) and isinstance(v.ty, TDict) for v in vals) and all(v.ty == vals[0].ty for v in vals):
+                # {**a, **b, ...} of dicts of one type: the keys of all of them, a later one taking precedence
+                t = TDict(vals[0].ty.k, vals[0].ty.v)
+                s = t.sort()
+                dom, val = s.dom(vals[0].z), s.val(vals[0].z)
+                kq = z3.Const(T.fresh_name("qmk"), t.k.sort())
+                for v in vals[1:]:
+                    nv = z3.Const(T.fresh_name("mergeval"), val.sort())
+                    st.assume(z3.ForAll([kq], z3.Select(nv, kq) == z3.If(z3.Select(s.dom(v.z), kq), z3.Select(s.val(v.z), kq), z3.Select(val, kq))))
+                    dom, val = z3.SetUnion(dom, s.dom(v.z)), nv
+                return V(t, s.constructor(0)(dom, val))
         items = {}
         for k, v in zip(e.keys, e.values):
             if k is None:      # {**other}
@@ -752,6 +772,54 @@ class Executor:
 
     def e_Set(self, st, e):
         return PyObj(("setlit", [self.eval(st, x) for x in e.elts]))
+
+    def e_DictComp(self, st, e):
+        """{kx(x): vx(x) for x in <set | list> if c(x)} -> a fresh dict r with: every admitted element's key is a key of r; every
+        key of r is the key of SOME admitted element w(key) and carries that element's value.  (Which element wins when two
+        admitted elements have the same key is not modelled: any of them -- sound for every iteration order.)"""
+        if len(e.generators) != 1 or e.generators[0].is_async:
+            raise Unsupported("dict comprehension with several generators")
+        g = e.generators[0]
+        src = self.eval(st, g.iter)
+        if isinstance(src, V) and isinstance(src.ty, TOpt):
+            src = unwrap_opt(src)
+        if isinstance(src, V) and isinstance(src.ty, TSet):
+            x = z3.Const(T.fresh_name("qdc"), src.ty.elem.sort())
+            inrange, elem = z3.Select(src.z, x), V(src.ty.elem, x)
+        elif isinstance(src, V) and isinstance(src.ty, TList):
+            x = z3.Int(T.fresh_name("qdc"))
+            inrange, elem = z3.And(0 <= x, x < seq_len(src)), V(src.ty.elem, z3.Select(seq_arr(src), x))
+        else:
+            raise Unsupported("dict comprehension source")
+        st2 = st.fork()
+        st2.assume(inrange)
+        self.bind_target(st2, g.target, elem)
+        n0, c0 = len(st2.pc), T._counter[0]
+        cond = z3.And(*[truthy(self.eval(st2, c)) for c in g.ifs]) if g.ifs else z3.BoolVal(True)
+        kx = to_v(self.eval(st2, e.key))
+        vx = self.eval(st2, e.value)
+        if isinstance(vx, PyObj) and isinstance(vx.o, tuple) and vx.o and vx.o[0] == "setlit" and vx.o[1]:
+            vx = coerce(vx, TSet(to_v(vx.o[1][0]).ty))
+        vx = to_v(vx)
+        for z in st2.pc[n0:]:
+            if mentions(z, [x]):
+                if _minted_since(z, c0):
+                    raise Unsupported("dict comprehension element needs a fresh value per element")
+                st.assume(z3.ForAll([x], z3.Implies(inrange, z)))
+            else:
+                st.assume(z)
+        if _minted_since(kx.z, c0) or _minted_since(vx.z, c0) or _minted_since(cond, c0):
+            raise Unsupported("dict comprehension element is a fresh value that does not depend on the element")
+        t = TDict(kx.ty, vx.ty)
+        r = fresh(t, "dictcomp")
+        s = t.sort()
+        w = z3.Function(T.fresh_name("dcw"), kx.ty.sort(), x.sort())
+        key = z3.Const(T.fresh_name("qdk"), kx.ty.sort())
+        at = lambda ex: z3.substitute(ex, (x, w(key)))
+        st.assume(z3.ForAll([x], z3.Implies(z3.And(inrange, cond), z3.Select(s.dom(r.z), kx.z))))
+        st.assume(z3.ForAll([key], z3.Implies(z3.Select(s.dom(r.z), key),
+                                              z3.And(at(inrange), at(cond), at(kx.z) == key, z3.Select(s.val(r.z), key) == at(vx.z)))))
+        return r
 
     def e_ListComp(self, st, e):
         return self.comprehension(st, e)
@@ -1084,6 +1152,10 @@ class Executor:
             return self.wrap(st, K(None), stmt_level)
         if isinstance(o, tuple) and o and o[0] == "superbound":
             return self.call_function(st, o[1], [o[2]] + args, kwargs, stmt_level=stmt_level, node=node, owner=o[3])
+        if isinstance(o, tuple) and o and o[0] == "localfn":
+            if args or kwargs:
+                raise Unsupported("call of a local function with arguments")
+            return self.wrap(st, self.eval(st, o[1]), stmt_level)      # see s_FunctionDef: evaluated in the state of the call
         if isinstance(o, tuple) and o and o[0] == "lambda":
             _, lam, env = o
             st2 = st.fork()
@@ -1105,6 +1177,8 @@ class Executor:
         return r
 
     def builtin(self, st, o, args, kwargs, node):
+        if args and any(o is w for w in ITER_WRAPPERS):
+            return args[0]       # a progress-bar style wrapper: iterating it yields exactly the elements of its first argument, in order
         if o in (int, str, bool, len, repr, list, tuple, sorted, min, max, abs) and any(isinstance(a, V) and a.ty == SINK for a in args):
             return fresh(SINK, "sinkfn") if o is not bool else V(BOOL, truthy(args[0]))
         if o is _was:
@@ -1169,7 +1243,16 @@ class Executor:
             if isinstance(a, PyObj) and isinstance(a.o, tuple) and a.o[0] == "genexp":
                 fake = ast.ListComp(elt=a.o[1].elt, generators=a.o[1].generators)
                 return self.comprehension(st, fake)
+            if isinstance(a, V) and isinstance(a.ty, TSet):
+                return self.list_of_set(st, a)
             return a
+        if o in (any, all) and len(args) == 1 and not kwargs and isinstance(args[0], V) and isinstance(args[0].ty, TList):
+            # any(xs) / all(xs) of a list VALUE: some / every element is truthy
+            xs = args[0]
+            i = z3.Int(T.fresh_name("qa"))
+            el = truthy(V(xs.ty.elem, z3.Select(seq_arr(xs), i)))
+            rng = z3.And(0 <= i, i < seq_len(xs))
+            return V(BOOL, exists([i], z3.And(rng, el)) if o is any else forall([i], z3.Implies(rng, el)))
         if o is isinstance:
             return V(BOOL, self.isinstance(st, args[0], args[1]))
         if o is next and len(args) == 2 and isinstance(args[0], PyObj) and isinstance(args[0].o, tuple) and args[0].o[0] == "genexp" \
@@ -1252,11 +1335,27 @@ class Executor:
             return self.flatten_value(st, a)
         if o is set and not args:
             return PyObj(("emptyset",))
+        if o is __import__("collections").defaultdict and len(args) == 1 and not kwargs and isinstance(args[0], PyObj) and args[0].o is set:
+            return PyObj(("defaultdict", "set"))       # typed by the declared type of the local it is assigned to (TDefaultDict)
         if o is dict and not args:
             return SDict(kwargs)
         if o is set and len(args) == 1:
             return self.set_of(st, args[0])
         return NotImplemented
+
+    def list_of_set(self, st, a):
+        """list(<set>): a fresh list that enumerates the set without repetition, in an ARBITRARY order (the iteration order of
+        a set is not modelled; two calls on the same set are not assumed to agree)"""
+        et = a.ty.elem
+        r = fresh_seq(TList(et), st, "listof")
+        n, arr = seq_len(r), seq_arr(r)
+        i, j = z3.Int(T.fresh_name("qi")), z3.Int(T.fresh_name("qi"))
+        x = z3.Const(T.fresh_name("qx"), et.sort())
+        wit = z3.Function(T.fresh_name("listw"), et.sort(), z3.IntSort())
+        st.assume(forall([i], z3.Implies(z3.And(0 <= i, i < n), z3.Select(a.z, z3.Select(arr, i)))))
+        st.assume(forall([i, j], z3.Implies(z3.And(0 <= i, i < j, j < n), z3.Select(arr, i) != z3.Select(arr, j))))
+        st.assume(z3.ForAll([x], z3.Implies(z3.Select(a.z, x), z3.And(0 <= wit(x), wit(x) < n, z3.Select(arr, wit(x)) == x))))
+        return r
 
     def set_of(self, st, a):
         if isinstance(a, V) and isinstance(a.ty, TSet):
@@ -1659,6 +1758,11 @@ class Executor:
         if isinstance(node, ast.Attribute):
             self.bind_target(st, ast.Attribute(value=node.value, attr=node.attr, ctx=ast.Store()), val)
             return
+        if isinstance(node, ast.Subscript) and not isinstance(node.slice, ast.Slice):
+            # in-place update of a container held in a dict / list slot (`d[k].add(x)`): containers are values here, so the
+            # updated value is stored back under the same key / index
+            self.bind_target(st, ast.Subscript(value=node.value, slice=node.slice, ctx=ast.Store()), val)
+            return
         raise Unsupported("mutation of a value that is not a variable or field")
 
 
@@ -1694,6 +1798,7 @@ def alias_detach(st, name):
 # -------------------------------------------------------------------------------------------------
 CLASS_OBJ: dict = {}       # short ref-class name -> real class object (for properties / methods)
 CALLABLE_CONTRACT: dict = {}   # short ref-class name -> key of the contract applied when an object of that class is CALLED
+ITER_WRAPPERS: list = []       # real callables (registered by a sidecar, listed in its TRUSTED) whose result iterates exactly as their first argument (tqdm)
 REC_LEN: dict = {}
 ISINSTANCE_HOOK: dict = {}
 _contract_ast_cache: dict = {}
